@@ -120,6 +120,23 @@ def main():
         r = wampx.Router(env, job["serializer"])
         A = Sess(types.ComponentConfig(realm="realm1"))
         B = Sess(types.ComponentConfig(realm="realm1"))
+        # the CALLER's error URI -> class registry: [[uri, "decor"|"explicit", "any"|"noargs", class name], ...]
+        for muri, how, ckind, cname in sc.get("caller_map", []):
+            if ckind == "any":
+                def __init__(self, *a, **kw):
+                    Exception.__init__(self, *a)
+                    self.kwargs = kw
+            else:
+                def __init__(self):
+                    Exception.__init__(self)
+                    self.kwargs = {}
+            cls = type(cname, (Exception,), {"__init__": __init__})
+            if how == "decor":
+                from autobahn.wamp import uri as wuri
+                cls = wuri.error(muri)(cls)
+                A.define(cls)
+            else:
+                A.define(cls, muri)
         A.set_payload_codec(make_ring(sc["ringA"], cryptobox))
         B.set_payload_codec(make_ring(sc["ringB"], cryptobox))
         r.attach("A", A)
@@ -199,7 +216,7 @@ def main():
                             plen["swapped"] = True
                     elif sc["dir"] == "error":
                         if deliveries:      # only the ERROR that answers the endpoint's exception
-                            m.error = uri2
+                            m.error = sc.get("error_uri2", uri2)
                 return m
             r.hooks[target_kind] = hook
             outcome = None
